@@ -88,7 +88,8 @@ var msgPool = []string{"Test", "Nested", "Spec", "Meta", "OtherNested", "Branch1
 	"Options", "Metadata", "Status", "Rule", "Item", "Leaf", "Node2", "ACL", "HTTPConfig"}
 
 var commentLines = []string{"Str string field", "  indented line", "contains \"quotes\" and `backticks`", "back\\slash \\n literal",
-	"tab\there", "non-ASCII: żółć ☃", "", "trailing spaces   ", "Nested repeated nested messages", "x", "a: b - c # d", "{{ template }} %v %s"}
+	"tab\there", "non-ASCII: żółć ☃", "", "trailing spaces   ", "Nested repeated nested messages", "x", "a: b - c # d", "{{ template }} %v %s",
+	"Import path of the package providing the artifact", "package main", "func F() { return } // import \"fmt\"", "type T struct{}"}
 
 func comment(t *rapid.T, label string) string {
 	n := rapid.IntRange(0, 4).Draw(t, label+".lines")
@@ -431,7 +432,7 @@ func (g *fileGen) field(m *ir.Message, names *nameSet, embedded map[string]bool,
 	}
 	if !fl.Embed {
 		reused := false
-		if o.MultiPath && fl.Kind == ir.KMessage && rapid.Bool().Draw(t, "reusepair") {
+		if fl.Kind == ir.KMessage && (o.MultiPath || rapid.IntRange(0, 3).Draw(t, "reusepair0") == 0) && rapid.Bool().Draw(t, "reusepair") {
 			for _, p := range g.pairs {
 				if p[1] == fl.Type && names.okField(p[0]) {
 					fl.Name = p[0]
